@@ -323,19 +323,30 @@ def check_property(pid, tier, seed, replay_only=None):
     known_hits = []
     info = {}
     proof_broken = None
+    def tie_broken(stage, log):
+        """the machinery that ties the model to /repo's current source no longer builds (a changed signature used by a hook or by
+        the fact extractor, a model that no longer compiles against the regenerated facts …): the property is no longer shown
+        to hold, and no script can be run to look for a failing input"""
+        what = "%s: %s" % (stage, log[-1500:])
+        h = hashlib.sha256(what.encode()).hexdigest()[:10]
+        rp = os.path.join(ROOT, "replays", "%s-tie-%s.json" % (pid, h))
+        json.dump({"property": pid, "broken": "the correspondence / regenerated-facts tie does not build (%s)" % stage, "log": log[-3000:],
+                   "theorems": P.get("theorems", []), "searched": {"evaluations": 0, "note": "no executor / checker to run scripts with"}},
+                  open(rp, "w"), indent=1)
+        return finish(pid, tier, seed, t0, [(rp, " no-failing-input-found")], [], {"build_error": stage, "log": log[-1500:]},
+                      proof_broken="tie does not build: " + what[:700], obligations=(len(P.get("theorems", [])), 0), cov={})
+
     try:
         info.update(build_facts())
         build_harness()
     except BuildError as e:
-        return finish(pid, tier, seed, t0, [], [], {"build_error": e.stage, "log": e.log[-1500:]}, proof_broken="build:" + e.stage,
-                      obligations=(len(P.get("theorems", [])), 0), cov={})
+        return tie_broken(e.stage, e.log)
     # the model and the checker first (needed for any correspondence run), then this property's proof modules only,
     # so that a proof broken by a change to /repo is attributed to the properties that depend on it
     try:
         build_lean(("RModel", "rdriver"))
     except BuildError as e2:
-        return finish(pid, tier, seed, t0, [], [], {"build_error": "lake", "log": e2.log[-1500:]},
-                      proof_broken="model does not build: " + e2.log[-800:], obligations=(len(P.get("theorems", [])), 0), cov={})
+        return tie_broken("lake build RModel rdriver", e2.log)
     try:
         build_lean(tuple(P.get("modules", props.DEFAULT_MODULES)))
     except BuildError as e:
